@@ -78,7 +78,8 @@ JudgeDrawing(sc, d, img, w0, w1, r, rowcap) ==
              (IF d.reoriented THEN {"C10"} ELSE {}) \cup
              (IF d.faulted THEN {"C12"} ELSE {}) \cup
              (IF cfg.iface = "spi" THEN {"C06"} ELSE IF cfg.iface \in {"p8", "p16"} THEN {"C07"} ELSE {}) \cup
-             (IF sc.tag = "colour" THEN {"C05"} ELSE {}) \cup (IF sc.tag = "testimage" THEN {"C19"} ELSE {})
+             (IF sc.tag = "colour" THEN {"C05"} ELSE {}) \cup (IF sc.tag = "testimage" THEN {"C19"} ELSE {}) \cup
+             (IF sc.tag = "orient-drawn" THEN {"C15"} ELSE {})
       newflags == w1.ctl.flags \ w0.ctl.flags
       wpp == WordsPerPixel(w1.ctl)
       fr == FramingErrors(w0.ctl, w1.cmds, wpp, IsDrawTarget(n))
@@ -179,13 +180,13 @@ JudgeOther(sc, d, w0, w1, r) ==
       \o Chk(r.obs.size = LogicalSize(cfg, o), r, {"C10"}, "reported size differs from the size under the orientation set")
       \o Chk(c.madctl = MadctlOf(cfg.bgr, o, cfg.refv, cfg.refh), r, {"C10", "C14"},
              "address mode after set_orientation is not the encoding of (colour order, new orientation, refresh order)")
-      \o Chk(Len(cm) = 1 /\ cm[1].op = 54 /\ cm[1].n = 1, r, {"C10"}, "set_orientation must send exactly one set-address-mode command")
+      \o Chk(Len(cm) = 1 /\ cm[1].op = 54 /\ cm[1].n = 1, r, {"C10", "C18"}, "set_orientation must send exactly one set-address-mode command")
     [] n = "scroll_region" ->
-         Chk(Len(cm) = 1 /\ cm[1].op = 51 /\ cm[1].n = 6, r, {"C16"}, "scroll region: not exactly one scroll-area definition")
+         Chk(Len(cm) = 1 /\ cm[1].op = 51 /\ cm[1].n = 6, r, {"C16", "C18"}, "scroll region: not exactly one scroll-area definition")
       \o Chk(c.tfa + c.vsa + c.bfa = cfg.H, r, {"C16"}, "scroll areas do not add up to the framebuffer height")
       \o Chk(a.top + a.bottom > cfg.H \/ (c.tfa = a.top /\ c.bfa = a.bottom), r, {"C16"}, "fixed areas not passed through unchanged")
     [] n = "scroll_offset" ->
-         Chk(One(55, Be16(a.v)), r, {"C16"}, "scroll offset not sent unchanged as one big-endian 16-bit parameter")
+         Chk(One(55, Be16(a.v)), r, {"C16", "C18"}, "scroll offset not sent unchanged as one big-endian 16-bit parameter")
     [] n = "tearing" ->
          Chk(IF a.mode = "off" THEN One(52, <<>>) ELSE IF a.mode = "v" THEN One(53, <<0>>) ELSE One(53, <<1>>), r, {"C18"},
              "tearing-effect command malformed")
@@ -229,6 +230,8 @@ JudgeFault(sc, d, w0, w1, r) ==
          "sleep flag changed although the command failed")
   \o Chk(r.name # "init" \/ Cardinality({i \in 1 .. Len(w1.cmds) : w1.cmds[i].op = 1}) <= 1, r, {"C12", "C17"},
          "the software reset was sent more than once")
+  \o Chk(kind # "ResetPin" \/ w1.nbus = 0, r, {"C12", "C17"},
+         "the reset pulse did not complete, yet commands were put on the bus")
   \o Chk(sc.kind # "xport" \/ r.name \notin {"xport.send_pixels", "xport.send_repeated_pixel"} \/
          (LET got == SubSeq(w1.ctl.burst, Len(w0.ctl.burst) + 1, Len(w1.ctl.burst))
               exp == IF r.name = "xport.send_pixels" THEN Flatten2(r.args.px)
